@@ -118,8 +118,13 @@ uint8_t get_reg(struct instr *instrc, struct operand *m, int r) {
       m->reg = NO_BASE;
       instrc->no_base = true;
     }
-    if (m->reg == NO_BASE)
+    if (m->reg == NO_BASE) {
+      // a base-less operand always carries a 32-bit displacement: a negative
+      // one that was reduced to 8 bits has to be sign-extended again
+      if (instrc->mod_disp == MOD8 && (instrc->mem_offset & NEG8BIT_CHECK))
+        instrc->mem_offset |= ~(uint32_t)MAX_UNSIGNED_8BIT;
       instrc->mod_disp = 0;
+    }
   }
   // check for index register
   if (m->index == reg_none) {
